@@ -19,6 +19,8 @@ EXTENDS Tucan, Bliss, Json
 
 CONSTANTS MaxN,        \* largest number of atoms
           Palette,     \* set of colours <<z, mass, rad>> atoms may take
+          Adapter,     \* "apply": the labelling is applied as bliss means it (igraph's own permute_vertices, the repaired code);
+                       \* "zip_inverse": the vector is read in the other convention (the pinned tree with igraph 1.0) -- negative control
           AnyLabelling \* FALSE: bliss answers with a canonical labelling (its contract).  TRUE ("downstream" instance): it may answer
                        \* with ANY labelling -- then equal strings / equal canonical graphs for relabelled inputs are not expected, but
                        \* everything downstream of the labelling (C03, C05, C12, C13: the string denotes the molecule, obeys the layout,
@@ -71,7 +73,8 @@ DoDerive ==
   /\ pc' = "canon1" /\ UNCHANGED M
 DoCanon(arg, ret, next) ==
   /\ \E f \in (IF AnyLabelling THEN Perms(objs[arg].n) ELSE CanonLabellings(WithPart(objs[arg]))) :
-       Step([op |-> "canon", arg |-> arg, ret |-> ret, g |-> SpecCanonicalize(objs[arg], f),
+       Step([op |-> "canon", arg |-> arg, ret |-> ret,
+             g |-> SpecCanonicalize(objs[arg], IF Adapter = "zip_inverse" THEN InvPerm(f, objs[arg].n) ELSE f),
              before |-> objs[arg], after |-> objs[arg],
              parts |-> RefineTrace(objs[arg])])
   /\ pc' = next /\ UNCHANGED <<M, pick>>
